@@ -568,7 +568,7 @@ fn exec_scaffold(idx: usize, raw: &str, pre: &str, fault: &str) -> Outcome {
         return Outcome::bad();
     }
     let t = oracle_trim(raw);
-    if !["none", "file", "dir", "symlink", "dangling"].contains(&pre) || (pre != "none" && !valid_component(t)) {
+    if !["none", "file", "dir", "emptydir", "symlink", "symlinkdir", "dangling"].contains(&pre) || (pre != "none" && !valid_component(t)) {
         return Outcome::bad();
     }
     let sfx = sf();
@@ -583,9 +583,14 @@ fn exec_scaffold(idx: usize, raw: &str, pre: &str, fault: &str) -> Outcome {
             fs::create_dir(cwd.join(t)).unwrap();
             fs::write(cwd.join(t).join("keep"), "x").unwrap();
         }
+        "emptydir" => fs::create_dir(cwd.join(t)).unwrap(),
         "symlink" => {
             fs::write(work.join("elsewhere"), "x").unwrap();
             std::os::unix::fs::symlink("../elsewhere", cwd.join(t)).unwrap();
+        }
+        "symlinkdir" => {
+            fs::create_dir(work.join("elsewheredir")).unwrap();
+            std::os::unix::fs::symlink("../elsewheredir", cwd.join(t)).unwrap();
         }
         "dangling" => std::os::unix::fs::symlink("../nowhere", cwd.join(t)).unwrap(),
         _ => {}
@@ -593,7 +598,14 @@ fn exec_scaffold(idx: usize, raw: &str, pre: &str, fault: &str) -> Outcome {
     let before = snapshot(&cwd);
     let trace = work.join("trace.txt");
     let mut cmd;
-    match &fault {
+    // `openat:k` means the k-th openat(O_CREAT) of the scaffold. Positions past the last one of the clean
+    // run do not exist; strace cannot filter on flags, and a raw position past the end could only hit the
+    // opendir calls of remove_dir_all (cleanup is not faulted in this property), so nothing is injected.
+    let inject = match &fault {
+        Some((sys, k, _)) if sys == "openat" && *k > sfx.counts["openat"] => None,
+        other => other.clone(),
+    };
+    match &inject {
         None => {
             cmd = Command::new(&sfx.bin);
         }
@@ -662,11 +674,11 @@ fn exec_scaffold(idx: usize, raw: &str, pre: &str, fault: &str) -> Outcome {
     }
     // property oracle
     let detail = || format!("name={raw:?} pre={pre} fault={fault:?} status={status}: {}", why.join("; "));
-    if class == "dirty" {
+    if pre != "none" && (class != "clean" || status == "ok") {
+        o.fails.push(("existing_target_modified".into(), detail()));
+    } else if class == "dirty" {
         let leftover = after.keys().any(|k| !before.contains_key(k) && k.contains(".sf-new-"));
         o.fails.push((if leftover { "staging_left_behind".into() } else { "not_all_or_nothing".into() }, detail()));
-    } else if pre != "none" && (class != "clean" || status == "ok") {
-        o.fails.push(("existing_target_modified".into(), detail()));
     } else if status == "ok" && !class.starts_with("complete") {
         o.fails.push(("ok_without_project".into(), detail()));
     } else if status == "err" && class != "clean" {
@@ -980,6 +992,17 @@ fn gen_rendertpl_cases(rng: &mut Rng, per_template: usize, cases: &mut Vec<Vec<S
                 2 => "name_lowercase".to_string(),
                 3 => "pubkey".to_string(),
                 4 => "a-1_b2".to_string(),
+                // names that are fragments of the placeholders (a template nesting placeholders would leak one)
+                5 => "lower".to_string(),
+                6 => "upper".to_string(),
+                7 => "pascal".to_string(),
+                8 => "underscore".to_string(),
+                9 => "name".to_string(),
+                10 => "lowercase".to_string(),
+                11 => "lowercase_underscore".to_string(),
+                12 => "uppercase".to_string(),
+                13 => "pascalcase".to_string(),
+                14 => "key".to_string(),
                 _ => valid_random_name(rng),
             };
             c.push(format!("rendertpl {t} {} {}", cps(&name), cps("9xQeWvG816bUx9EPjHmaT23yvVM2ZWbrrpZb9PusVFin")));
@@ -1024,11 +1047,18 @@ fn gen_scaffold_cases(rng: &mut Rng, thorough: bool, cases: &mut Vec<Vec<String>
     }
     // pre-existing targets, alone and combined with a fault
     for name in ["ab", "counter-program"] {
-        for pre in ["file", "dir", "symlink", "dangling"] {
+        for pre in ["file", "dir", "emptydir", "symlink", "symlinkdir", "dangling"] {
             push("pre-existing target", format!("scaffold {} pre={pre} fault=none", cps(name)), cases);
             for f in ["mkdir:1:EACCES", "mkdir:3:ENOENT", "openat:7:ENOSPC", "write:12:EIO", "rename:1:EXDEV", "mkdir:1:EEXIST"] {
                 push("pre-existing target + fault", format!("scaffold {} pre={pre} fault={f}", cps(name)), cases);
             }
+        }
+    }
+    // a dangling symlink passes the exists() probe, so the whole sequence runs before the rename fails:
+    // every fault position again on top of it
+    for (sys, errs) in errnos {
+        for k in 1..=counts[*sys] + 2 {
+            push("dangling symlink + fault position", format!("scaffold {} pre=dangling fault={sys}:{k}:{}", cps("ab"), errs[0]), cases);
         }
     }
     // padded argument with a pre-existing target at the trimmed name; invalid names with faults
